@@ -59,6 +59,16 @@ class Problem(Exception):
     pass
 
 
+def _const(a):
+    return len(set(a)) <= 1
+
+
+def t_degenerate(pairs):
+    """some rearrangement has zero pooled variance or an empty sample: the t statistic is not finite
+    there, which puts the data outside the properties' quantifier"""
+    return any((_const(u) and _const(v)) or len(u) + len(v) < 3 or len(u) == 0 or len(v) == 0 for u, v in pairs)
+
+
 # ----------------------------------------------------------------------------- function wrappers
 class Fn:
     """one randomised function of /repo: how to generate, call, decode, model and compare"""
@@ -176,6 +186,10 @@ class TwoSample(Fn):
             if not close(res["p"], mp, rel=1e-12):
                 probs.append(f"p-value {float(res['p'])} != model {mp} (hitsUp={f['up']}, hitsDn={f['dn']})")
         else:   # t: keys are sign(t)·t²; compare values numerically, counts through the tie bracket
+            tab0 = [F(v) for v in p["x"]] + [F(v) + (F(p["shift"]) if self.shift else 0) for v in p["y"]]
+            tab1 = [F(v) - (F(p["shift"]) if self.shift else 0) for v in p["x"]] + [F(v) for v in p["y"]]
+            if t_degenerate(margs + [(tab0[:len(p["x"])], tab1[len(p["x"]):])]):
+                return ["SKIP-nonfinite"]
             key = lambda t: (1 if t >= 0 else -1) * float(t) ** 2
             if not close(key(res["obs"]), mobs, rel=1e-7, ab=1e-9):
                 probs.append(f"observed t statistic {float(res['obs'])}: sign·t² = {key(res['obs'])} != {float(mobs)}")
@@ -290,6 +304,8 @@ class OneSample(Fn):
             elif not close(res["p"], frac(f["p"]), rel=1e-12):
                 probs.append(f"p-value {float(res['p'])} != model {frac(f['p'])}")
         else:
+            if any(_const(a) or len(a) < 2 for a in margs + [exact_list(self.z(p))]):
+                return ["SKIP-nonfinite"]
             key = lambda t: (1 if t >= 0 else -1) * float(t) ** 2
             if not close(key(res["obs"]), mobs, rel=1e-7, ab=1e-9):
                 probs.append(f"observed t statistic: sign·t² = {key(res['obs'])} != {float(mobs)}")
@@ -479,6 +495,16 @@ class Bivariate(Fn):
             finite = False
         if not finite:
             return probs + ["SKIP-nonfinite"]
+        if p["stat"] == "twoway":
+            # SSB/(SST-SSB) is undefined when the denominator vanishes exactly (doubles then return rounding noise)
+            xs = [F(v) for v in p["x"]]; mu = sum(xs) / len(xs); sst = sum((v - mu) ** 2 for v in xs)
+            def den(g2):
+                ss2 = Fr(0)
+                for k in set(g2):
+                    xx = [v for v, gg in zip(xs, g2) if gg == k]; ss2 += (sum(xx) / len(xx) - mu) ** 2
+                return sst - ss2
+            if any(den(g2) == 0 for g2 in margs + [p["g2"]]):
+                return ["SKIP-nonfinite"]
         if not close(res["obs"], mobs, rel=1e-7):
             probs.append(f"observed statistic {float(res['obs'])} != {float(mobs)}")
         if res["dist"] is not None and not (len(res["dist"]) == reps and all(close(a, b, rel=1e-7) for a, b in zip(res["dist"], mdist))):
@@ -710,6 +736,9 @@ class StratTwoSample(Fn):
             mdist, mobs = fracs(f["dist"]), frac(f["obs"])
         obs_args = tuple(exact_list([p["resp"][i] for i in o]))
         if p["stat"] == "t":
+            nt = sum(1 for c2 in p["cond"] if c2 == p["cond"][o[0]])
+            if t_degenerate([(a[:nt], a[nt:]) for a in margs + [list(obs_args)]]):
+                return ["SKIP-nonfinite"]
             key = lambda t: (1 if t >= 0 else -1) * float(t) ** 2
             if not close(key(res["obs"]), mobs, rel=1e-7, ab=1e-9):
                 probs.append(f"observed t statistic: sign·t² = {key(res['obs'])} != {float(mobs)}")
